@@ -34,6 +34,7 @@ import (
 	"github.com/fatedier/frp/pkg/transport"
 	netpkg "github.com/fatedier/frp/pkg/util/net"
 	"github.com/fatedier/frp/pkg/util/util"
+	"github.com/fatedier/frp/pkg/util/verifhook"
 	"github.com/fatedier/frp/pkg/util/version"
 	"github.com/fatedier/frp/pkg/util/wait"
 	"github.com/fatedier/frp/pkg/util/xlog"
@@ -329,6 +330,7 @@ func (ctl *Control) worker() {
 	defer ctl.mu.Unlock()
 
 	close(ctl.workConnCh)
+	verifhook.At("ctl.teardown.poolclosed", "ctl", verifhook.ID(ctl), "run_id", ctl.loginMsg.RunID)
 	for workConn := range ctl.workConnCh {
 		workConn.Close()
 	}
@@ -336,6 +338,7 @@ func (ctl *Control) worker() {
 	for _, pxy := range ctl.proxies {
 		pxy.Close()
 		ctl.pxyManager.Del(pxy.GetName())
+		verifhook.At("ctl.teardown.proxy", "ctl", verifhook.ID(ctl), "name", pxy.GetName())
 		metrics.Server.CloseProxy(pxy.GetName(), pxy.GetConfigurer().GetBaseConfig().Type)
 
 		notifyContent := &plugin.CloseProxyContent{
@@ -353,6 +356,7 @@ func (ctl *Control) worker() {
 		}()
 	}
 
+	verifhook.At("ctl.teardown.done", "ctl", verifhook.ID(ctl), "run_id", ctl.loginMsg.RunID)
 	metrics.Server.CloseClient()
 	xl.Infof("client exit success")
 	close(ctl.doneCh)
@@ -370,6 +374,7 @@ func (ctl *Control) registerMsgHandlers() {
 func (ctl *Control) handleNewProxy(m msg.Message) {
 	xl := ctl.xl
 	inMsg := m.(*msg.NewProxy)
+	verifhook.At("ctl.newproxy.begin", "ctl", verifhook.ID(ctl), "run_id", ctl.loginMsg.RunID, "name", inMsg.ProxyName, "type", inMsg.ProxyType, "req", inMsg.RemotePort, "group", inMsg.Group)
 
 	content := &plugin.NewProxyContent{
 		User: plugin.UserInfo{
@@ -399,6 +404,7 @@ func (ctl *Control) handleNewProxy(m msg.Message) {
 		xl.Infof("new proxy [%s] type [%s] success", inMsg.ProxyName, inMsg.ProxyType)
 		metrics.Server.NewProxy(inMsg.ProxyName, inMsg.ProxyType)
 	}
+	verifhook.At("ctl.newproxy.end", "ctl", verifhook.ID(ctl), "run_id", ctl.loginMsg.RunID, "name", resp.ProxyName, "remote_addr", resp.RemoteAddr, "err", resp.Error)
 	_ = ctl.msgDispatcher.Send(resp)
 }
 
@@ -487,23 +493,27 @@ func (ctl *Control) RegisterProxy(pxyMsg *msg.NewProxy) (remoteAddr string, err 
 	if ctl.serverCfg.MaxPortsPerClient > 0 {
 		ctl.mu.Lock()
 		if ctl.portsUsedNum+pxy.GetUsedPortsNum() > int(ctl.serverCfg.MaxPortsPerClient) {
+			verifhook.At("ctl.quota", "ctl", verifhook.ID(ctl), "name", pxyMsg.ProxyName, "ok", false, "used", ctl.portsUsedNum, "w", pxy.GetUsedPortsNum())
 			ctl.mu.Unlock()
 			err = fmt.Errorf("exceed the max_ports_per_client")
 			return
 		}
 		ctl.portsUsedNum += pxy.GetUsedPortsNum()
+		verifhook.At("ctl.quota", "ctl", verifhook.ID(ctl), "name", pxyMsg.ProxyName, "ok", true, "used", ctl.portsUsedNum, "w", pxy.GetUsedPortsNum())
 		ctl.mu.Unlock()
 
 		defer func() {
 			if err != nil {
 				ctl.mu.Lock()
 				ctl.portsUsedNum -= pxy.GetUsedPortsNum()
+				verifhook.At("ctl.quota.rollback", "ctl", verifhook.ID(ctl), "name", pxyMsg.ProxyName, "used", ctl.portsUsedNum)
 				ctl.mu.Unlock()
 			}
 		}()
 	}
 
 	if ctl.pxyManager.Exist(pxyMsg.ProxyName) {
+		verifhook.At("ctl.exist.refuse", "ctl", verifhook.ID(ctl), "name", pxyMsg.ProxyName)
 		err = fmt.Errorf("proxy [%s] already exists", pxyMsg.ProxyName)
 		return
 	}
@@ -525,6 +535,7 @@ func (ctl *Control) RegisterProxy(pxyMsg *msg.NewProxy) (remoteAddr string, err 
 
 	ctl.mu.Lock()
 	ctl.proxies[pxy.GetName()] = pxy
+	verifhook.At("ctl.insert", "ctl", verifhook.ID(ctl), "name", pxy.GetName())
 	ctl.mu.Unlock()
 	return
 }
@@ -532,6 +543,7 @@ func (ctl *Control) RegisterProxy(pxyMsg *msg.NewProxy) (remoteAddr string, err 
 func (ctl *Control) CloseProxy(closeMsg *msg.CloseProxy) (err error) {
 	ctl.mu.Lock()
 	pxy, ok := ctl.proxies[closeMsg.ProxyName]
+	verifhook.At("ctl.closeproxy.begin", "ctl", verifhook.ID(ctl), "run_id", ctl.loginMsg.RunID, "name", closeMsg.ProxyName, "found", ok)
 	if !ok {
 		ctl.mu.Unlock()
 		return
@@ -543,6 +555,7 @@ func (ctl *Control) CloseProxy(closeMsg *msg.CloseProxy) (err error) {
 	pxy.Close()
 	ctl.pxyManager.Del(pxy.GetName())
 	delete(ctl.proxies, closeMsg.ProxyName)
+	verifhook.At("ctl.closeproxy.end", "ctl", verifhook.ID(ctl), "name", closeMsg.ProxyName, "used", ctl.portsUsedNum)
 	ctl.mu.Unlock()
 
 	metrics.Server.CloseProxy(pxy.GetName(), pxy.GetConfigurer().GetBaseConfig().Type)
